@@ -81,6 +81,7 @@ type failWriter struct {
 	perCall  int  // >0: accept at most perCall bytes per Write call (legal short-write-free chunking is done by returning full count)
 	calls    int
 	everyErr bool // fail on every call from the start
+	otherErr bool // the error returned is errC14Other (a writer of an earlier, unrelated conversion)
 }
 
 func (w *failWriter) Write(p []byte) (int, error) {
@@ -106,8 +107,13 @@ func (w *failWriter) Write(p []byte) (int, error) {
 	if w.sliceErr {
 		return room, errC14Slice
 	}
+	if w.otherErr {
+		return room, errC14Other
+	}
 	return room, errC14
 }
+
+var errC14Other = errors.New("verif: injected failure of the writer of an EARLIER conversion")
 
 // Writers that offer more than Write. goldmark may look for optional methods on the destination (io.StringWriter,
 // io.ByteWriter, a Flush method, the whole util.BufWriter set); whatever route it then takes, a failure must still surface.
@@ -285,6 +291,11 @@ func c14RunAs(c *core.Ctx, k c14Case, variant string, off int, label string) {
 			c14Violation(c, k, label, off, "error-without-writer-failure", fmt.Sprintf("returned %q although the writer never failed", err.Error()))
 			return
 		}
+		// success means the whole output was delivered
+		if variant != "fail-once" && !bytes.Equal(fw.got, k.ref) {
+			c14Violation(c, k, label, off, "success-reported-but-output-incomplete", fmt.Sprintf("returned nil and the writer never failed, but it received %d of %d bytes: %s", len(fw.got), len(k.ref), q(fw.got)))
+			return
+		}
 	}
 	if variant == "fail-once" {
 		// after the single failure the writer accepts everything; what it holds must still start with the prefix accepted before the failure
@@ -391,14 +402,25 @@ func c14Histories(c *core.Ctx) {
 		}
 		for e := 0; e < nerr; e++ {
 			mode = 1
-			var sink bytes.Buffer
+			// the destination of such a conversion is healthy, or fails before / at / after the point where the node renderer
+			// gives up (both failures in one call)
+			var sink io.Writer = &bytes.Buffer{}
+			esrc := []byte("a\n\n***\n\nb\n")
+			if x := r.Intn(4); x > 0 {
+				// (its own error value: a later conversion that reports THIS error reports somebody else's failure)
+				sink = &failWriter{limit: []int{0, 3, 9, 4000}[r.Intn(4)], otherErr: true}
+				if x == 3 {
+					esrc = append([]byte(strings.Repeat("long line before the break ", 200)+"\n\n"), esrc...)
+				}
+				c.Count("history_conversions_with_node_renderer_error_and_failing_writer", 1)
+			}
 			var err error
-			pv, st := core.Try(func() { err = md.Convert([]byte("a\n\n***\n\nb\n"), &sink) })
+			pv, st := core.Try(func() { err = md.Convert(esrc, sink) })
 			c.Eval()
 			c.Count("history_conversions_ending_with_node_renderer_error", 1)
 			if pv != nil {
 				c.Violation(&core.Violation{Class: "panic-on-renderer-error", Locus: "node-renderer:history", Input: src, Detail: fmt.Sprintf("%v\n%s", pv, trimStack(st))})
-			} else if !errors.Is(err, errC14Node) {
+			} else if !errors.Is(err, errC14Node) && !errors.Is(err, errC14Other) {
 				c.Violation(&core.Violation{Class: "renderer-error-lost", Locus: "node-renderer:history", Input: src, Detail: fmt.Sprintf("the node renderer failed but Convert returned %v", err)})
 			}
 		}
@@ -406,6 +428,11 @@ func c14Histories(c *core.Ctx) {
 		if len(offs) > 160 {
 			r.Shuffle(len(offs), func(i, j int) { offs[i], offs[j] = offs[j], offs[i] })
 			offs = offs[:160]
+		}
+		offs = append(offs, len(ref.Out), len(ref.Out)+100, len(ref.Out), len(ref.Out))
+		if h%2 == 0 {
+			// a healthy destination directly after the conversions that went wrong
+			offs[0] = len(ref.Out) + 1
 		}
 		for i, off := range offs {
 			mode = 2
